@@ -38,6 +38,7 @@ def _coverage(rs):
 
 
 _K = ["--known", 1]
+_T = ["--case-timeout", 120]   # a tree with 288 configurations takes ~0.1 s; the default 20 s watchdog fires spuriously at load averages > 100
 
 SPEC = dict(
     level="exploration",
@@ -46,8 +47,8 @@ SPEC = dict(
          "PIs, XML declarations 1.0/1.1/standalone, four DOCTYPEs incl. internal subsets with entities, notations and a default attribute, entity references); "
          "(built) every tree built on an empty document or on a parsed DTD-bearing base document by <= n construction steps over {4 doctype forms, 6 element names "
          "(a, p:a bound, q:a unbound, default-ns a{ud}, U+00E9, p:b), UP, 4 attribute names (x, p:x, q:x, q:y in another namespace) x data, Text/CDATA/Comment/PI x data, "
-         "EntityReference e} with a 4-string data list (n<=2 all 288 configurations, n<=3 90 'core' configurations; quick uses a 22-step 'mini' alphabet for n=3; "
-         "thorough adds n<=4 over the mini alphabet under the 18 default-feature configurations); (data) <a> holding one Text / CDATA / Comment / PI / attribute value / "
+         "EntityReference e} with a 4-string data list (n<=2: all 288 configurations; n<=3 over a 22-step 'mini' alphabet: 90 'core' configurations; "
+         "thorough adds n<=3 over the full 46-step alphabet and n<=4 over the mini alphabet, both under the 18 default-feature configurations); (data) <a> holding one Text / CDATA / Comment / PI / attribute value / "
          "Text+CDATA+Text with every string of <= k symbols (k=2: 343 strings under all 288 configurations; thorough adds k=3: 6175 strings under the 90 core configurations) over {x < & > \" ' CR LF TAB ]]> ]] -- ?> U+00E9 U+20AC U+10000 U+0085 U+0001}. "
          "Configurations: 8 encodings {UTF-8, UTF-16, UTF-16BE, ISO-8859-1, US-ASCII, Windows-1252, IBM1140, ISO-8859-15} x {xml-declaration, split-cdata-sections, "
          "discard-default-content, byte-order-mark} on/off x XML 1.0/1.1 (setXmlVersion) for write() to a MemBufFormatTarget, and the 32 feature/version combinations for "
@@ -78,24 +79,27 @@ SPEC = dict(
     ],
     coverage=_coverage,
     runs=dict(
+        # --deadline values only bound the wall time on an overloaded box (then exhaustive:false); on ~8 free cores every run completes well inside them.
+        # --witness 0: known-defect witnesses of that run are already reported by another run of the same tier.
         quick=[
             dict(name="params", driver="c12_ser", args=["--space", "params"] + _K),
             dict(name="fmt", driver="c12_ser", args=["--space", "fmt"] + _K),
-            dict(name="data-k2", driver="c12_ser", args=["--space", "data", "--k", 2] + _K),
-            dict(name="parsed-k2-full", driver="c12_ser", args=["--space", "parsed", "--k", 2] + _K),
-            dict(name="parsed-k3-core", driver="c12_ser", args=["--space", "parsed", "--k", 3, "--configs", "core"] + _K),
-            dict(name="built-n2-full", driver="c12_ser", args=["--space", "built", "--steps", 2] + _K),
-            dict(name="built-n3-mini-core", driver="c12_ser", args=["--space", "built", "--steps", 3, "--dataset", "mini", "--configs", "core"] + _K),
+            dict(name="data-k2", driver="c12_ser", args=["--space", "data", "--k", 2, "--deadline", 45] + _T + _K),
+            dict(name="parsed-k2-full", driver="c12_ser", args=["--space", "parsed", "--k", 2, "--deadline", 30] + _T + _K),
+            dict(name="parsed-k3-core", driver="c12_ser", args=["--space", "parsed", "--k", 3, "--configs", "core", "--witness", 0, "--deadline", 75] + _T + _K),
+            dict(name="built-n2-full", driver="c12_ser", args=["--space", "built", "--steps", 2, "--deadline", 45] + _T + _K),
+            dict(name="built-n3-mini-core", driver="c12_ser", args=["--space", "built", "--steps", 3, "--dataset", "mini", "--configs", "core", "--witness", 0, "--deadline", 75] + _T + _K),
         ],
         thorough=[
             dict(name="params", driver="c12_ser", args=["--space", "params"] + _K),
             dict(name="fmt", driver="c12_ser", args=["--space", "fmt"] + _K),
-            dict(name="data-k2", driver="c12_ser", args=["--space", "data", "--k", 2] + _K),
-            dict(name="data-k3-core", driver="c12_ser", args=["--space", "data", "--k", 3, "--configs", "core", "--deadline", 420] + _K),
-            dict(name="parsed-k3", driver="c12_ser", args=["--space", "parsed", "--k", 3] + _K),
-            dict(name="built-n2-full", driver="c12_ser", args=["--space", "built", "--steps", 2] + _K),
-            dict(name="built-n3-core", driver="c12_ser", args=["--space", "built", "--steps", 3, "--configs", "core", "--deadline", 540] + _K),
-            dict(name="built-n4-mini-defaults", driver="c12_ser", args=["--space", "built", "--steps", 4, "--dataset", "mini", "--configs", "defaults", "--deadline", 300] + _K),
+            dict(name="data-k2", driver="c12_ser", args=["--space", "data", "--k", 2, "--deadline", 120] + _T + _K),
+            dict(name="data-k3-core", driver="c12_ser", args=["--space", "data", "--k", 3, "--configs", "core", "--witness", 0, "--deadline", 240] + _T + _K),
+            dict(name="parsed-k3", driver="c12_ser", args=["--space", "parsed", "--k", 3, "--deadline", 330] + _T + _K),
+            dict(name="built-n2-full", driver="c12_ser", args=["--space", "built", "--steps", 2, "--deadline", 120] + _T + _K),
+            dict(name="built-n3-mini-core", driver="c12_ser", args=["--space", "built", "--steps", 3, "--dataset", "mini", "--configs", "core", "--witness", 0, "--deadline", 120] + _T + _K),
+            dict(name="built-n3-defaults", driver="c12_ser", args=["--space", "built", "--steps", 3, "--configs", "defaults", "--witness", 0, "--deadline", 240] + _T + _K),
+            dict(name="built-n4-mini-defaults", driver="c12_ser", args=["--space", "built", "--steps", 4, "--dataset", "mini", "--configs", "defaults", "--witness", 0, "--deadline", 180] + _T + _K),
         ],
     ),
     manifest=dict(
